@@ -32,11 +32,19 @@ Hello call, and it is this") over which every theorem is universally quantified.
 Environment assumptions (Twisted), built into `step`:
   * (T1) `connectionLost` is called at most once and nothing is delivered afterwards (`St.lost` gates everything);
   * (T2) after `transport.loseConnection()` the transport stops reading: no `dataReceived` follows (`receiving`);
-  * (T3) an exception escaping `dataReceived` makes the reactor call `connectionLost` at once (`HelloOutcome.garbage`;
-    in line mode C07's model records such an exception - a command word that is not UTF-8 - as `Ev.close`);
+  * (T3) an exception escaping `dataReceived` makes the reactor call `connectionLost` at once.  Built in for BINARY
+    mode only: bytes on which `rawDBusMessageReceived` raises - instead of the Hello answer (`HelloOutcome.garbage`) or
+    at any time after it (`Cfg.crash`) - set `St.raised` and `St.lost` in the read that delivered them.  In LINE mode
+    the only escaping exception (UnicodeDecodeError of `cmd.decode()` on a command word that is not UTF-8) is, in
+    C07's model, the same `Ev.close` as a `loseConnection`: the composed model files it under (T4) - it waits for
+    `Step.lost`, although Twisted would already have called `connectionLost`.  An under-claim (such a run counts as
+    "not terminated" until the `lost` step), not an unsoundness; the harness inserts that step.
   * (T4) NOT built in, a hypothesis wherever it is needed: after `transport.loseConnection()` the reactor eventually
     calls `connectionLost`.  In the model this is the environment's step `Step.lost`; a run in which the client has
-    closed and `Step.lost` never comes is a run in which nothing fires.
+    closed and `Step.lost` never comes is a run in which nothing fires.  (T4 can fail in practice: `loseConnection`
+    waits for the write buffer to drain, and a peer that stops reading keeps it from draining.)
+txdbus has no timeout on the handshake or on the Hello call: a peer that accepts the socket and then says nothing
+leaves `connect()` pending forever.  That run is not terminated, and no theorem here says anything fires in it.
 `Step.lost` stands for both "the peer closed" and "the reactor's follow-up of the client's own loseConnection";
 the second, on a connection that is not authenticated, is C09's event `authFailed` (which is "loseConnection and
 connectionLost" there), everything else is C09's `close`.
@@ -79,6 +87,9 @@ structure Cfg where
   envAt : Nat → Env
   /-- the binary stream so far -> the complete answer to the Hello call, if it is there -/
   decode : Bytes → Option HelloOutcome
+  /-- the binary stream so far, AFTER the answer to Hello was handled, holds bytes on which binary mode raises
+  (a complete message that `parseMessage` rejects): the exception escapes `dataReceived` (T3) -/
+  crash : Bytes → Bool
 
 structure St where
   /-- C07: the protocol object in line mode / its hand-over to binary mode -/
@@ -93,6 +104,8 @@ structure St where
   lost : Bool
   /-- the answer to the Hello call that arrived -/
   hello : Option HelloOutcome
+  /-- binary mode raised out of `dataReceived` (T3): the cause of `lost` that is not a `Step.lost` -/
+  raised : Bool
 
 /-- Hand one event to the lifecycle model. -/
 def feed (cfg : Cfg) (e : Lifecycle.Ev) (s : St) : St :=
@@ -101,16 +114,26 @@ def feed (cfg : Cfg) (e : Lifecycle.Ev) (s : St) : St :=
 /-- The transport still delivers reads: not lost (T1), `loseConnection` not called (T2). -/
 def receiving (s : St) : Bool := !s.lost && !s.proto.disconnecting
 
-/-- Binary mode after new bytes: if the answer to the (still outstanding) Hello call is complete, it is handled. -/
-def arrive (cfg : Cfg) (s : St) : St :=
-  if s.hello.isSome then s
-  else
+/-- The Hello answer, if the call is still outstanding and the answer is complete. -/
+def answer (cfg : Cfg) (s : St) : St :=
+  match s.hello with
+  | some _ => s
+  | none =>
     match cfg.decode s.proto.binary with
     | none => s
-    | some o =>
-      let s := feed cfg (helloEv o) { s with hello := some o }
-      -- (T3) the exception escapes dataReceived: the reactor has called connectionLost
-      if o = .garbage then { s with lost := true } else s
+    | some o => feed cfg (helloEv o) { s with hello := some o }
+
+/-- Binary mode after new bytes (the message loop of `dataReceived`): the answer to the (still outstanding) Hello
+call is handled if it is complete; then, if what was to be the answer - or anything after it - makes
+`rawDBusMessageReceived` raise, the exception escapes and the reactor calls `connectionLost` (T3). -/
+def arrive (cfg : Cfg) (s : St) : St :=
+  let s1 := answer cfg s
+  if s1.hello = some .garbage then
+    -- `helloEv .garbage` = `close` was fed by `answer`
+    { s1 with lost := true, raised := true }
+  else if s1.hello.isSome && cfg.crash s1.proto.binary then
+    { feed cfg .close s1 with lost := true, raised := true }
+  else s1
 
 def step (cfg : Cfg) (s : St) : Step → St
   | .read data =>
@@ -143,7 +166,7 @@ def run (cfg : Cfg) (s : St) : List Step → St
 line; `life0` is the lifecycle state in which the attempt on this address has just connected. -/
 def init (cfg : Cfg) (life0 : Lifecycle.St) : St :=
   { proto := AuthClient.connectionMade cfg.pref cfg.unix (cfg.envAt 0), life := life0, evs := [],
-    delivered := [], lost := false, hello := none }
+    delivered := [], lost := false, hello := none, raised := false }
 
 /-- `client.connect` on a one-address list whose attempt connects, then the handshake. -/
 def attempt (cfg : Cfg) (ep : Endpoints.Endpoint) (steps : List Step) : St :=
@@ -165,6 +188,35 @@ def firedSpec (s : St) : List Lifecycle.ConnectResult :=
   | some .error => [.helloError]
   | some .garbage => [.lostEarly]
   | none => if s.lost then [.lostEarly] else []
+
+/-! ### the Hello outcome as a function of the delivered reads (no `step`, no `lost`, no lifecycle) -/
+
+/-- What binary mode has seen happen. -/
+structure BinObs where
+  hello : Option HelloOutcome
+  raised : Bool
+deriving DecidableEq, Repr
+
+/-- One delivered read took the protocol object from `p` to `p'`.  Binary mode ran on `p'.binary` iff the client
+is authenticated afterwards and either was so before (a binary-mode read) or the hand-off left bytes
+(`if rest: self.dataReceived(rest)`).  If it ran: the FIRST binary stream on which `decode` answers is the
+Hello outcome; `garbage`, or `crash` once there is an outcome, is an escaping exception. -/
+def binStep (cfg : Cfg) (p p' : Proto) (b : BinObs) : BinObs :=
+  if p'.authenticated && (p.authenticated || !p'.binary.isEmpty) then
+    let h := match b.hello with
+      | some o => some o
+      | none => cfg.decode p'.binary
+    { hello := h, raised := b.raised || h == some .garbage || (h.isSome && cfg.crash p'.binary) }
+  else b
+
+def binFold (cfg : Cfg) : Proto → BinObs → List Bytes → BinObs
+  | _, b, [] => b
+  | p, b, d :: ds => binFold cfg (AuthClient.dataReceived cfg.envAt p d) (binStep cfg p (AuthClient.dataReceived cfg.envAt p d) b) ds
+
+/-- The Hello outcome and the escaping exception determined by a list of delivered reads: C07's model run over
+the reads, `decode` / `crash` applied to the binary streams binary mode ran on, in order. -/
+def binSpec (cfg : Cfg) (ds : List Bytes) : BinObs :=
+  binFold cfg (AuthClient.connectionMade cfg.pref cfg.unix (cfg.envAt 0)) ⟨none, false⟩ ds
 
 /-- The reads of a step list. -/
 def readsOf : List Step → List Bytes
